@@ -604,10 +604,12 @@ def check_freshness_equality(prog: Program, res: Result, rule: str) -> None:
                 continue
             # a missing file is stale (the reload then reports it): the only other exit allowed is `return False` in an OSError handler
             handlers = [h for h in ast.walk(m.node) if isinstance(h, ast.ExceptHandler)]
-            if any(not (norm(h.type) in ("OSError", "FileNotFoundError") and len(h.body) == 1 and isinstance(h.body[0], ast.Return) and isinstance(h.body[0].value, ast.Constant) and h.body[0].value.value is False) for h in handlers):
+            if any(not (h.type is not None and len(h.body) == 1 and isinstance(h.body[0], ast.Return) and isinstance(h.body[0].value, ast.Constant) and h.body[0].value.value is False) for h in handlers):
                 res.fail(rule, file=m.file, line=m.node.lineno, qualname=f"{cinfo.name}.{nm}", construct=f"{nm} swallows an error as fresh", message="the freshness test handles an error by reporting anything other than 'stale': a vanished or unreadable source keeps being served from the cache", what=what)
                 continue
-            if len(cmps) == 1 and len(cmps[0].ops) == 1 and isinstance(cmps[0].ops[0], ast.Eq) and "st_mtime" in norm(cmps[0]) and "mtime" in norm(cmps[0].left):
+            cmps = [c for c in cmps if "st_mtime" in norm(c, 200)]  # other comparisons (is the file found still the first match?) can only add `return False` exits
+            other_true = [r for r in ast.walk(m.node) if isinstance(r, ast.Return) and isinstance(r.value, ast.Constant) and r.value.value is True]
+            if len(cmps) == 1 and not other_true and len(cmps[0].ops) == 1 and isinstance(cmps[0].ops[0], ast.Eq) and "st_mtime" in norm(cmps[0]) and "mtime" in norm(cmps[0].left):
                 res.ok(rule, f"{m.file}:{m.node.lineno} {cinfo.name}.{nm}", what, norm(cmps[0]))
             else:
                 res.fail(rule, file=m.file, line=m.node.lineno, qualname=f"{cinfo.name}.{nm}", construct=f"{nm} comparison {[norm(c) for c in cmps]}", message="the freshness test is not an equality of modification times: a source replaced by an older file (rollback, cp -p, rsync -t) is treated as unchanged and the stale template keeps being served", what=what)
@@ -1316,3 +1318,81 @@ def check_no_lexical_path_normalisation(prog: Program, res: Result, rule: str) -
                     res.fail(rule, file=mod.relpath, line=c.lineno, qualname=fi.qualname, construct=f"{fi.qualname}: lexical path normalisation `{norm(c.func)}`", message=f"{fi.qualname} calls `{norm(c, 60)}`: a name such as `snippets/../main.html` becomes `main.html` before the parent-directory guard (or the cache) sees it, so a name with `..` segments is served instead of failing with TemplateNotFoundError", what=f"{fi.qualname}: names are used as written")
     res.ok(rule, "liquid2/loader.py, liquid2/builtin/loaders/*", "no loader function normalises a template name lexically", f"{n} functions; positive example matched")
     res.floor(rule, "loader functions scanned", n, 30)
+
+
+def check_freshness_covers_search(prog: Program, res: Result, rule: str) -> None:
+    """A source picked by *first match* over several candidates (search paths, delegate loaders) is fresh only while it is still the
+    first match: the `uptodate` a loader hands out with such a source re-runs the pick (or is None: no freshness information).
+    Otherwise a template that appears in an earlier candidate is never seen while the later one is cached and unchanged."""
+    n = 0
+    for mod in sorted(prog.modules.values(), key=lambda m: m.relpath):
+        if not mod.relpath.startswith("liquid2/builtin/loaders/"):
+            continue
+        for ci in mod.classes.values():
+            # first-match searches of this class: a loop over self.<candidates> with a return inside it
+            searches: dict[str, str] = {}
+            for mn, mf in ci.methods.items():
+                for lp in ast.walk(mf.node):
+                    if isinstance(lp, (ast.For, ast.AsyncFor)) and isinstance(lp.iter, ast.Attribute) and isinstance(lp.iter.value, ast.Name) and lp.iter.value.id == "self" and any(isinstance(r, ast.Return) and r.value is not None for r in ast.walk(lp)):
+                        searches[mn] = lp.iter.attr
+            if not searches:
+                continue
+
+            def refs(fn_name: str, seen: set[str]) -> set[str]:
+                """Methods of the class (own or inherited) that *fn_name* mentions, transitively."""
+                if fn_name in seen:
+                    return seen
+                seen.add(fn_name)
+                f_ = prog.find_method(ci, fn_name)
+                if f_ is None:
+                    return seen
+                for x in ast.walk(f_.node):
+                    if isinstance(x, ast.Attribute) and isinstance(x.value, ast.Name) and (x.value.id == "self" or x.value.id == ci.name or any(b.name == x.value.id for b in prog.mro(ci))) and prog.find_method(ci, x.attr) is not None:
+                        refs(x.attr, seen)
+                return seen
+
+            for gs in ("get_source", "get_source_async"):
+                f = ci.methods.get(gs)
+                if f is None:
+                    continue
+                used = refs(gs, set()) & set(searches)
+                if not used:
+                    continue
+                search = sorted(used)[0]
+                n += 1
+                site = f"{ci.file}:{f.node.lineno} {ci.name}.{gs}"
+                what = f"{ci.name}.{gs}: the freshness test of a first-match source re-runs the match over self.{searches[search]}"
+                if gs in searches:
+                    # the method is the search itself: what it returns from the loop carries the delegate's freshness only
+                    bad = None
+                    for lp in ast.walk(f.node):
+                        if isinstance(lp, (ast.For, ast.AsyncFor)):
+                            for r in ast.walk(lp):
+                                if isinstance(r, ast.Return) and r.value is not None:
+                                    v = r.value.value if isinstance(r.value, ast.Await) else r.value
+                                    if not (isinstance(v, ast.Call) and any(k.arg == "uptodate" for k in v.keywords)):
+                                        bad = r
+                    if bad is not None:
+                        res.fail(rule, file=ci.file, line=bad.lineno, qualname=f"{ci.name}.{gs}", construct=f"{ci.name}.{gs}: first match over self.{searches[search]} returned with the delegate's freshness only", message=f"{ci.name}.{gs} returns `{norm(bad.value, 50)}` from its loop over self.{searches[search]}: the entry stays fresh as long as *that* delegate's source is unchanged, so a template of the same name that appears in an earlier delegate is not served while the later one is cached - the uncached loader serves it at once", what=what)
+                    else:
+                        res.ok(rule, site, what, "every return from the loop sets its own uptodate")
+                    continue
+                ts_calls = [c for c in ast.walk(f.node) if isinstance(c, ast.Call) and (dotted(c.func) or "").endswith("TemplateSource")]
+                if not ts_calls:
+                    res.fail(rule, file=ci.file, line=f.node.lineno, qualname=f"{ci.name}.{gs}", construct=f"{ci.name}.{gs}: no TemplateSource built", message=f"{ci.name}.{gs} uses the first-match search {search} but builds no TemplateSource: not decided", what=what)
+                    continue
+                for c in ts_calls:
+                    up = c.args[2] if len(c.args) > 2 else next((k.value for k in c.keywords if k.arg == "uptodate"), None)
+                    if up is None or (isinstance(up, ast.Constant) and up.value is None):
+                        res.ok(rule, site, what, "uptodate is None: no freshness information")
+                        continue
+                    target = None
+                    for x in ast.walk(up):
+                        if isinstance(x, ast.Attribute) and isinstance(x.value, ast.Name) and x.value.id in ("self", ci.name) and prog.find_method(ci, x.attr) is not None:
+                            target = x.attr
+                            break
+                    if target is not None and search in refs(target, set()):
+                        res.ok(rule, site, what, f"{target} re-runs {search}")
+                    else:
+                        res.fail(rule, file=ci.file, line=c.lineno, qualname=f"{ci.name}.{gs}", construct=f"{ci.name}.{gs}: uptodate does not re-run {search}", message=f"{ci.name}.{gs} picks the first of self.{searches[search]} that has the name ({search}) and hands out `{norm(up, 50)}` as its freshness test, which looks at the file found only: a file of the same name created in an earlier search path is not served while the later one is cached and unchanged - the uncached loader serves it at once", what=what)
+    res.floor(rule, "source getters over a first-match search", n, 4)
